@@ -54,4 +54,20 @@ def acc_rs(s, x, **kw):
     return s + v, s * 2 + v
 
 
+def twin_a(x, **kw):
+    _jitter(x)
+    return x * 2 + _kw(kw)
+
+
+def twin_b(x, **kw):
+    _jitter(x)
+    return x + 100 + _kw(kw)
+
+
+# two different functions that go by the same name (like two lambdas)
+TWINS = {"twin_a": twin_a, "twin_b": twin_b}
+twin_a.__name__ = twin_b.__name__ = "twin"
+twin_a.__qualname__ = twin_b.__qualname__ = "twin"
+
 FUN = {f.__name__: f for f in (inc, dbl, tsum, add, acc_add, acc_rs)}
+FUN.update(TWINS)
